@@ -460,7 +460,11 @@ def string_template(prog, body, e):
 def must_pass(body, start_nodes, pass_nodes, end_nodes):
     """True iff every path from any start node to any end node goes through a pass node.
     returns (ok, witness_end) — witness = an end node reachable while avoiding pass nodes"""
-    reach = body.reachable_from(list(start_nodes), set(pass_nodes))
+    if getattr(body, 'inlined', None):
+        # spliced helpers share one continuation per call site: keep their Ok / Err returns apart
+        reach = body.reachable_tracking(list(start_nodes), set(pass_nodes))
+    else:
+        reach = body.reachable_from(list(start_nodes), set(pass_nodes))
     for e in end_nodes:
         if e in reach:
             return False, e
